@@ -320,6 +320,61 @@ func c02Errors(x *mc.Exec) {
 	c02RoundTrip(x, c, "C02:errors")
 }
 
+// c02Large: collections and included lists well beyond any small-input fast
+// path (chunked or parallel marshaling, sort thresholds), at sizes around powers
+// of two and not divisible by small worker counts.
+func c02Large(x *mc.Exec) {
+	sizes := []int{13, 16, 17, 31, 33, 63, 64, 65, 66, 67, 100, 127, 129, 255, 257, 1001}
+	n := sizes[x.Choose(len(sizes), "size")]
+	impl := x.Choose(3, "collection")
+	where := x.Choose(2, "where")
+	soft := impl != 2
+	c := &DocCase{DataKind: "list", Schema: BuildSchema([]TypeD{docT, docU, docQ, docK}, []bool{soft, true, true, true})}
+	var col j.Collection
+	switch impl {
+	case 0:
+		col = &j.Resources{}
+	case 1:
+		typ := docT.SoftType()
+		sc := &j.SoftCollection{}
+		sc.SetType(&typ)
+		col = sc
+	case 2:
+		col = j.WrapCollection(docT.NewRes(false))
+	}
+	doc := &j.Document{PrePath: "https://x", RelData: AllRelData(c.Schema)}
+	frag := []string{"t"}
+	var rs []j.Resource
+	for i := 0; i < n; i++ {
+		// ids in an order that is neither sorted nor reversed
+		rs = append(rs, docRes(docT, soft, fmt.Sprintf("r%04d", (i*7919)%n), i))
+	}
+	if where == 0 {
+		for _, r := range rs {
+			col.Add(r)
+		}
+		c.Primary = rs
+		doc.Data = col
+	} else {
+		one := docRes(docT, soft, "solo", 1)
+		doc.Data, c.Primary, c.DataKind = one, []j.Resource{one}, "single"
+		doc.Included = rs
+		frag = []string{"t", "solo"}
+	}
+	fields := map[string][]string{}
+	for _, t := range c.Schema.Types {
+		fields[t.Name] = FieldNames(t)
+	}
+	c.Fields = fields
+	c.Doc = doc
+	c.URL = &j.URL{Fragments: frag, ResType: "t", IsCol: len(frag) == 1,
+		Params: &j.Params{Fields: fields, RelData: map[string][]string{}, SortingRules: []string{}, Include: [][]j.Rel{}}}
+	c.Desc = fmt.Sprintf("%d resources in %s (%s)", n, []string{"the primary collection", "included"}[where], []string{"Resources", "SoftCollection", "WrapperCollection"}[impl])
+	x.Render(c.Desc)
+	x.R.Sample("large", c.Desc)
+	c02RoundTrip(x, c, "C02:large")
+}
+
 type c02Ctor struct {
 	name string
 	mk   func() j.Error
@@ -386,12 +441,13 @@ func c02Interleaved(x *mc.Exec) {
 func init() {
 	Register(&Prop{
 		ID:          "C02",
-		Rule:        "Engine A, all choices Full: the complete product 19 primary-data kinds (incl. a resource without ID and resources with one attribute of every kind at its smallest / largest value, soft and struct-backed) x 5 included lists (ids colliding across types and not, mixed implementations) x 4 metas (nil, {}, scalars, nested/array/null/escapes) x 3 error lists x 6 prefixes x 3 field selections x 2 relationship-data requests; plus every one of the 256 member subsets of one error object, all pairs and triples (with repetition, every order) of 6 representative errors, and errors together with data, every error constructor of the library x 4 argument strings (empty, plain, escape-needing, 40 multi-byte runes), errors whose source/links/meta members are empty strings, null or empty containers. and every ordered pair of 8 richer documents marshaled one after the other before the first payload is read back. Each document is marshaled and unmarshaled against the same schema; oracle written in the harness: kind of primary data, members in order by (type,id,selected values), included as a set keyed by (type,id), meta and error members as canonical JSON. Non-trivial = distinct marshaled payload",
+		Rule:        "Engine A, all choices Full: the complete product 19 primary-data kinds (incl. a resource without ID and resources with one attribute of every kind at its smallest / largest value, soft and struct-backed) x 5 included lists (ids colliding across types and not, mixed implementations) x 4 metas (nil, {}, scalars, nested/array/null/escapes) x 3 error lists x 6 prefixes x 3 field selections x 2 relationship-data requests; plus every one of the 256 member subsets of one error object, all pairs and triples (with repetition, every order) of 6 representative errors, and errors together with data, every error constructor of the library x 4 argument strings (empty, plain, escape-needing, 40 multi-byte runes), errors whose source/links/meta members are empty strings, null or empty containers. and 16 sizes from 13 to 1001 (around powers of two, not divisible by small worker counts) x 3 collection implementations x {primary collection, included list}, ids in scrambled order. and every ordered pair of 8 richer documents marshaled one after the other before the first payload is read back. Each document is marshaled and unmarshaled against the same schema; oracle written in the harness: kind of primary data, members in order by (type,id,selected values), included as a set keyed by (type,id), meta and error members as canonical JSON. Non-trivial = distinct marshaled payload",
 		Assumptions: []string{"an Identifier document may come back as a single field-less resource with the same type and id (JSON:API cannot tell them apart); weaker reading chosen deliberately", "empty map == absent for meta / links / source"},
 		Harnesses: []Harness{
 			{Name: "C02/docs", Body: c02Docs, Dev: func() int { return 1 }, ShardDepth: 3},
 			{Name: "C02/errors", Body: c02Errors},
 			{Name: "C02/interleaved", Body: c02Interleaved},
+			{Name: "C02/large", Body: c02Large},
 		},
 	})
 }
